@@ -63,6 +63,17 @@ def run(ctx):
         for ticks in ([3, 5, 7, 9, 13, 17, 33, 65], [3], [65], []):
             stim.append({"t": len(stim) + 1, "maxr": maxr, "at": 2, "steps": [{"a": "wfail", "t": 0}] + [{"a": "tick", "t": t} for t in ticks]})
             ctx.cov["histories_first_write_fails"] = ctx.cov.get("histories_first_write_fails", 0) + 1
+        # the sweep of a tick at which a copy is due fetches the pending entry; before it acts on it the acknowledgement / reset /
+        # piggybacked response arrives and is processed completely (scheduling point: the map's hook between fetching an entry
+        # and the callback): the answer came first - no copy any more
+        if maxr >= 1:
+            for y in ("ack", "rst", "piggy"):
+                for pre in ([], [{"a": "tick", "t": 3}]):
+                    t = 3 if not pre else 5
+                    if len(pre) + 1 > maxr:
+                        continue
+                    stim.append({"t": len(stim) + 1, "maxr": maxr, "at": 2, "steps": pre + [{"a": "race", "t": t, "y": y}, {"a": "tick", "t": t + 2}, {"a": "tick", "t": t + 4}]})
+                    ctx.cov["histories_sweep_races_answer"] = ctx.cov.get("histories_sweep_races_answer", 0) + 1
         # the same parameters as configured through the options (option plumbing): the library's own client
         # (udp.Dial, options.WithTransmission) and a server-side connection of a real udp server, over loopback sockets
         plain = [h for h in direct if all(a["a"] != "queue" for a in h)]
